@@ -55,7 +55,14 @@ func zzC05_duplicate() {
 		cc.CheckExpirations(time.Unix(0, t2))
 	}
 	symSetNow(time.Unix(0, t2))
-	cc.ProcessReceivedMessage(zzRequest(typ, mid, codes.GET, token, nil))
+	// the second copy normally has the type of the first; a peer that repeats a message ID with the other type is
+	// answered according to the copy that is being answered (acknowledgement for a confirmable copy, its message ID)
+	typ2 := typ
+	if !con && replied && symChoose("second-copy-type", 2) == 1 {
+		typ2 = message.Confirmable
+		symCover("retyped-copy")
+	}
+	cc.ProcessReceivedMessage(zzRequest(typ2, mid, codes.GET, token, nil))
 	symObserve("calls", calls)
 	symObserve("written", len(s.written))
 	if t2-t1 <= zzLifetime {
@@ -69,6 +76,9 @@ func zzC05_duplicate() {
 				symAssert(b.mid == mid, "the duplicate's reply is matched to the duplicate's message ID")
 				if con {
 					symAssert(b.typ == message.Acknowledgement && a.typ == message.Acknowledgement, "replies to confirmable copies are acknowledgements")
+				}
+				if typ2 == message.Confirmable {
+					symAssert(b.typ == message.Acknowledgement, "replies to confirmable copies are acknowledgements")
 				}
 			}
 		}
